@@ -565,9 +565,14 @@ def gen_cases(rng, tier, focus=()):
     # --- quaternions -----------------------------------------------------------------------------
     for _ in range(60 * scale * boost('quat')):
         sa, sb = rng.choice(BPAIRS)
-        cases.append({'fam': 'quat', 'op': rng.choice(['mul', 'conj', 'reciprocal', 'to_matrix3', 'mulmat', 'parts']),
+        cases.append({'fam': 'quat', 'op': rng.choice(['mul', 'conj', 'reciprocal', 'to_matrix3', 'mulmat', 'parts', 'vmul', 'to_rotation']),
                       'p': gen_operand(rng, sa, (4,), rng.choice(['rand', 'rand', 'axis', 'zero'])),
                       'q': gen_operand(rng, sb, (4,), 'rand')})
+    for k in range(24 * scale * boost('quat')):
+        sa, sb = rng.choice(BPAIRS)
+        cases.append({'fam': 'quat', 'op': ('vmul', 'to_rotation')[k % 2],
+                      'p': gen_operand(rng, sa, (4,), 'rand', rep=('F', 'mix', 'aF')[k % 3]),
+                      'q': gen_operand(rng, sb, (4,), 'rand', rep=('F', 'F', 'mix')[(k // 2) % 3])})
     for _ in range(30 * scale * boost('quat')):
         sa, sb = rng.choice(BPAIRS)
         cases.append({'fam': 'quat', 'op': 'from_rotation', 't': angle_operand(sa, rng.random() < 0.3),
@@ -1017,6 +1022,37 @@ def run_quat(c, Pm):
             pr = compare(observe(r2), Pv, mp)
             prob = pr and 'from_parts(scalar, generic Vector): ' + pr
         mask = mp
+    elif op == 'vmul':
+        # a generic 3-vector next to a quaternion stands for the pure quaternion (0, v), on either side
+        # (seeded change C16-N: Quaternion.__rmul__ multiplied in the wrong order)
+        Vp = np.concatenate([np.zeros(Pv.shape[:-1] + (1,)), Pv[..., 1:]], axis=-1)
+        Vb = np.broadcast_to(Vp, s + (4,))
+        v = Pm.Vector(Pv[..., 1:].copy(), p.mask)
+        mask = bmask(mp, mq, s)
+        r = v * q
+        prob = compare(observe(r), qmul_ref(Vb, Qb), mask)
+        prob = prob and 'Vector * Quaternion is not (0,v) * q: ' + prob
+        if prob is None:
+            r = q * v
+            prob = compare(observe(r), qmul_ref(Qb, Vb), mask)
+            prob = prob and 'Quaternion * Vector is not q * (0,v): ' + prob
+    elif op == 'to_rotation':
+        # angle and axis of any quaternion, normalised or not: from_rotation gives the unit quaternion back
+        # (seeded change C16-O: a formula valid for unit quaternions only)
+        n = np.sqrt((Pv * Pv).sum(-1))
+        nv = np.sqrt((Pv[..., 1:] ** 2).sum(-1))
+        mask = mp | (nv == 0)
+        ang, axis = p.to_rotation()
+        refang = 2 * np.arctan2(nv, Pv[..., 0])
+        prob = compare(observe(ang), refang, mp)
+        prob = prob and 'to_rotation angle: ' + prob
+        if prob is None:
+            prob = compare(observe(axis), Pv[..., 1:] / np.where(nv == 0, 1, nv)[..., None], mask)
+            prob = prob and 'to_rotation axis: ' + prob
+        r = Pm.Quaternion.from_rotation(ang, axis)
+        if prob is None:
+            prob = compare(observe(r), Pv / np.where(n == 0, 1, n)[..., None], mask, rtol=1e-9, atol=1e-9)
+            prob = prob and 'from_rotation(*q.to_rotation()) != q.unit(): ' + prob
     else:
         raise KeyError(op)
     return prob, {'impl': str(r)[:300]}, bool(np.any(mp)) or bool(np.any(mq))
